@@ -616,9 +616,33 @@ package dials
 // parallel; j must always be the number of retained base fields before i, for every struct type.
 // ---------------------------------------------------------------------------------------------
 
+// overlayField(base, overlay): base is a settable field of the config struct, overlay the field at the same
+// (retained) position of a source's pointerified value.
+//@ macro overlayUnset(overlay Val) bool = (kind(vtype(overlay)) == Slice || kind(vtype(overlay)) == Ptr || kind(vtype(overlay)) == Interface || kind(vtype(overlay)) == Map) && visnil(overlay)
+//@ macro isLeafKind(k int) bool = k != Ptr && k != Interface && k != Struct
 //@ func dials.(*overlayer).overlayField(o, base, overlay) (err)
+//@   props C01
+//@   safety C16
+//@   requires o != nil && valid(base) && valid(overlay) && vtype(base) != nil && vtype(overlay) != nil
+//@   requires wf_package_initialised: tuIface() != nil && kind(tuIface()) == Interface
+//@   requires C01_overlay_field_is_the_pointerified_base_field: fieldShape(vtype(base), vtype(overlay), tuIface())
+//@   requires C01_skipped_kinds_never_arrive: kind(vtype(base)) != Chan && kind(vtype(base)) != Func
+//@   requires wf_package_initialised_errors: global("errCanSetField") != nil
+//@   requires wf_layer_and_config_are_disjoint_objects: vroot(overlay) != vroot(base)
+//@   decreases srank(vtype(base)), 1
+//@   modifies rh, rec_overlayStruct
+//@   at call base.Set(:
+//@     assert C01_struct_pointers_are_merged_not_replaced: kind(vtype(base)) == Ptr && kind(elem(vtype(base))) == Struct && !isTUS(elem(vtype(base)), tuIface()) ==> visnil(base)
+//@   ensures C01_unset_overlay_changes_nothing: old(overlayUnset(overlay)) ==> err == nil && rh == old(rh)
+//@   ensures C01_set_leaf_is_replaced_as_a_whole: err == nil && !old(overlayUnset(overlay)) && isLeafKind(kind(vtype(base))) ==>
+//@        rh == old(rh) + 1 && vval(base) == old(vval(ite(kind(vtype(overlay)) == Ptr, vElem(overlay), overlay)))
+//@   ensures C01_set_pointer_leaf_is_replaced_as_a_whole: err == nil && !old(overlayUnset(overlay)) && kind(vtype(base)) == Ptr
+//@        && (kind(elem(vtype(base))) != Struct || isTUS(elem(vtype(base)), tuIface())) ==> rh == old(rh) + 1 && vval(base) == old(vval(overlay))
+
+//@ func dials.(*overlayer).overlayInterface(o, base, overlay) (err)
 //@   flag unproved
-//@   requires valid(base) && valid(overlay)
+//@   requires valid(base) && valid(overlay) && kind(vtype(base)) == Interface
+//@   modifies rh, rec_overlayStruct
 
 //@ func dials.(*overlayer).overlayStruct(o, base, overlay) (err)
 //@   props C01
@@ -626,9 +650,12 @@ package dials
 //@   flag record overlayStruct
 //@   requires o != nil && valid(base) && valid(overlay)
 //@   requires kind(vtype(base)) == Struct && kind(vtype(overlay)) == Struct
-//@   requires C01_overlay_is_pointerified_base: numField(vtype(overlay)) == retained(vtype(base), numField(vtype(base)))
-//@   requires C01_overlay_names: forall k int :: {fName(vtype(base), k)} 0 <= k && k < numField(vtype(base)) && keeps(vtype(base), k) ==>
-//@        fName(vtype(overlay), retained(vtype(base), k)) == fName(vtype(base), k)
+//@   requires wf_package_initialised: tuIface() != nil && kind(tuIface()) == Interface
+//@   requires C01_overlay_is_pointerified_base: deepShape(vtype(base), vtype(overlay), tuIface())
+//@   requires wf_package_initialised_errors: global("errCanSetField") != nil
+//@   requires wf_layer_and_config_are_disjoint_objects: vroot(overlay) != vroot(base)
+//@   decreases srank(vtype(base)), 0
+//@   modifies rh, rec_overlayStruct
 //@   loop 0:
 //@     invariant 0 <= i && i <= numField(vtype(base))
 //@     invariant C01_no_drift: j == retained(vtype(base), i)
